@@ -16,6 +16,7 @@ type FuncReport struct {
 	Mode    string
 	Paths   int
 	Panics  int
+	Infeasible int
 	Error   string // execution error => outside subset / undecided
 	Notes   []string
 }
@@ -272,6 +273,12 @@ func (vc *VC) verifyFunction(fn *ssa.Function) (rep *FuncReport) {
 		}
 		vc.verifyRun(fn, fc, key, cd.Name, rep)
 	}
+	for _, sc := range fc.Scenarios {
+		if rep.Error != "" {
+			break
+		}
+		vc.verifyRun(fn, fc, key, sc, rep)
+	}
 	return rep
 }
 
@@ -402,8 +409,12 @@ func (vc *VC) verifyRun(fn *ssa.Function, fc *FuncContract, key, caseName string
 			}(lhs.E)
 		}
 	}
+	vc.curCase = caseName
+	for _, gf := range fc.GhostFuns {
+		top.ghost["fun:"+gf.Name] = gf
+	}
 	for _, c := range fc.Clauses {
-		if c.Kind == "requires" {
+		if c.Kind == "requires" && (c.Case == "" || c.Case == caseName) {
 			st.Assume(vc.evalSpecTerm(top, st, c.Expr, nil))
 		}
 	}
@@ -414,8 +425,33 @@ func (vc *VC) verifyRun(fn *ssa.Function, fc *FuncContract, key, caseName string
 	rep.Paths += len(outs)
 	invs := vc.pkgInvsOf(fn.Pkg)
 	ncover := 0
-	for _, o := range outs {
-		if o.St.Infeasible() {
+	// In scenario runs most error paths are infeasible under the well-formedness
+	// preconditions: decide that once per path instead of once per postcondition.
+	infeasible := map[int]bool{}
+	if caseName != "" && vc.dry == 0 && len(outs) > 1 {
+		var probes []*Obligation
+		var idxs []int
+		for i, o := range outs {
+			if o.St.Infeasible() {
+				continue
+			}
+			po := &Obligation{Func: vc.curFunc, Kind: "cover", Label: fmt.Sprintf("feasible%d", i), Mode: vc.mode.Name,
+				Goal: TTrue(), NDecl: len(vc.decls), vc: vc, Cover: true}
+			po.Assumes = append([]Term(nil), o.St.pc...)
+			po.Name = fmt.Sprintf("%s#feasible:path%d", vc.curFunc, i)
+			probes = append(probes, po)
+			idxs = append(idxs, i)
+		}
+		probePaths(probes)
+		for k, po := range probes {
+			if po.Result == "unsat" {
+				infeasible[idxs[k]] = true
+				rep.Infeasible++
+			}
+		}
+	}
+	for oi, o := range outs {
+		if o.St.Infeasible() || infeasible[oi] {
 			continue
 		}
 		pf := &Frame{fn: fn, env: top.env, ghost: top.ghost, entrySt: entry}
@@ -459,7 +495,11 @@ func (vc *VC) verifyRun(fn *ssa.Function, fc *FuncContract, key, caseName string
 				vc.addObligation(o.St, kind, "pkg."+inv.Label, "", vc.evalInv(inv, o.St), inv.Props)
 			}
 		}
-		if ncover < 3 && vc.dry == 0 {
+		maxCover := 3
+		if caseName != "" {
+			maxCover = 60
+		}
+		if ncover < maxCover && vc.dry == 0 {
 			ncover++
 			co := &Obligation{Func: vc.curFunc, Kind: "cover", Label: fmt.Sprintf("path%d", ncover), Mode: vc.mode.Name,
 				Goal: TTrue(), NDecl: len(vc.decls), vc: vc, Props: vc.curProps, Cover: true}
